@@ -1079,11 +1079,6 @@ def build():
     return defs, info
 
 
-def fix_rbasex_calls(defs):
-    """rename F-1 -> Fm1 inside recursion calls (none today: recursion starts at F2)."""
-    return defs
-
-
 def render(defs, info):
     out = [HEADER % 'abel/{dasch,daun,rbasex}.py', 'Create HintDb c09defs.\n']
     for name, kind, params, ir in defs:
